@@ -82,6 +82,9 @@ def cases(shard, rnd):
                    'size': rnd.getrandbits(40), 'ch': c % 65536}
 
 
+_RETAINED = common.Retained()
+
+
 def expected_props(props):
     exp = dict(refspec.PROPERTY_DEFAULTS)
     for n, v in props.items():
@@ -253,6 +256,10 @@ def run_case(case, rec):
             return
         rec.count('encode_change_encode_ok')
     rec.count('roundtrips_ok')
+    if rec.counters['roundtrips_ok'] % 5 == 0:
+        _RETAINED.add(g, lambda o: (o.body_size, o.class_id, canon.text(
+            boundary.props_values(o.properties))), 'decoded ContentHeader',
+            rec, 'earlier-decoded-header-changed')
     for n, v in props.items():
         rec.count('set:' + n)
         if v in (0, {}) and not isinstance(v, bool):
